@@ -481,6 +481,38 @@ def loadfile_rule(repo: Repo, rep: Report, rid: str) -> None:
               "'\\r', which the line-comment pattern of the parser does not stop at", fi.loc())
 
 
+def parser_fold_rule(repo: Repo, rep: Report, rid: str) -> None:
+    rep.rule(rid, "token parser folded: TokenParser(cs).parse(text) is interpreted against a model cstruct object that records what is defined. A "
+                  "definition text using every construct once (constants and constant expressions, enums / flags with implicit, explicit, zero and "
+                  "multi-bit values, an anonymous enum, scalar / array / pointer / bit-field / nested / anonymous members, expression-sized, "
+                  "multi-dimensional, zero-length and octal-sized arrays, multi-word type names, a constant shadowed by a field, a redefined constant, a "
+                  "union, a self-referencing structure, typedefs of scalars / pointers / arrays / tagged and anonymous structures with several names) must "
+                  "give the expected tables; the same text with comments inserted, with its spacing changed, with both, and with unrelated definitions "
+                  "reordered must give the same tables; five ill-formed texts must be refused with the documented error; align / compiled reach every "
+                  "structure the parser creates")
+    from ..parsefold import fold_parser
+
+    fi = repo.func("parser.py", "TokenParser.parse")
+    cache = repo.__dict__.setdefault("_parser_fold", {})
+    if "r" not in cache:
+        cache["r"] = fold_parser(repo)
+    fold = cache["r"]
+    if fold is None:
+        rep.ok(rid, f"{fi.key}:parser-fold", "the token parser uses a construct outside the evaluator's whitelist: the structural rules on its patterns and dispatch decide",
+               fi.loc(), nontrivial=False)
+        return
+    rep.info["parser_fold_cases"] = fold["cases"]
+    groups: dict[str, list] = {}
+    for label, why in fold["bad"]:
+        key = "reference" if label == "reference" else ("variants" if label.startswith(("comments", "spacing", "unrelated")) else ("errors" if label.startswith(("a ", "an ")) else "options"))
+        groups.setdefault(key, []).append((label, why))
+    for key, what in (("reference", "the reference text gives the expected tables"), ("variants", "comments, spacing and the order of unrelated definitions do not change the tables"),
+                      ("errors", "ill-formed definitions are refused with the documented error"), ("options", "align / compiled reach every structure")):
+        bad = groups.get(key, [])
+        rep.check(not bad, rid, f"{fi.key}:parser-fold:{key}", what,
+                  (f"{bad[0][0]}: {bad[0][1]}" + (f" [{len(bad)} discrepancies]" if len(bad) > 1 else "")) if bad else "", fi.loc())
+
+
 def run(repo: Repo, rep: Report, tier: str) -> None:
     keyword_rule(repo, rep, "C13.R1")
     gap_rule(repo, rep, "C13.R2")
@@ -506,3 +538,4 @@ def run(repo: Repo, rep: Report, tier: str) -> None:
     from .c07 import count_text_rule
 
     count_text_rule(repo, rep, "C13.R16")
+    parser_fold_rule(repo, rep, "C13.R17")
